@@ -119,9 +119,13 @@ def config(tier, seed):
                           dict(Pools="{%d}" % (seed % 3), MaxAct=2, LateBegin=False, pairs=pairs)],
                     live=dict(Pools="{0,1,2}", MaxAct=1, LateBegin=True, pairs=ap),
                     moments=[0, 1], per_key=2, bound=BOUND)
-    return dict(runs=[dict(Pools="{%d}" % p, MaxAct=2, LateBegin=False, pairs=ap) for p in (0, 1, 2)]
-                + [dict(Pools="{0,1,2}", MaxAct=1, LateBegin=True, pairs=ap, Dialing=True)],
-                live=dict(Pools="{0,1,2}", MaxAct=2, LateBegin=True, pairs=[p for p in ap if 7 not in p]),
+    nosync = [p for p in ap if 7 not in p]
+    return dict(runs=[dict(Pools="{0,1,2}", MaxAct=1, LateBegin=True, pairs=[], Dialing=True),
+                      dict(Pools="{0,1,2}", MaxAct=2, LateBegin=False, pairs=nosync),
+                      dict(Pools="{2}", MaxAct=2, LateBegin=False, pairs=[(1, 7), (2, 7), (5, 7), (6, 7)]),
+                      dict(Pools="{1,2}", MaxAct=2, LateBegin=False, pairs=[(3, 7)]),
+                      dict(Pools="{2}", MaxAct=2, LateBegin=False, pairs=[(4, 7)])],
+                live=dict(Pools="{0,1,2}", MaxAct=2, LateBegin=True, pairs=nosync),
                 moments=[0, 1, 2], per_key=3, bound=BOUND)
 
 
@@ -163,6 +167,7 @@ class G:
         self.ev = array("b")
         self.out = None
         self.n_edges_raw = 0
+        self.seen = set()
 
     def node(self, st):
         k = array("H", st).tobytes()        # compact: 2 bytes per component
@@ -191,12 +196,12 @@ class G:
             n = self.node(d["init"])
             if n not in self.inits:
                 self.inits.append(n)
-        seen = set()
+        seen = self.seen
         for line in open(run.edges_path):
             d = json.loads(line)
             self.n_edges_raw += 1
             f, t, l = self.node(d["from"]), self.node(d["to"]), self.label(d["act"])
-            key = (f, l, t)
+            key = (f << 40) | (l << 24) | t
             if key in seen:
                 continue
             seen.add(key)
@@ -206,6 +211,7 @@ class G:
             self.ev.append(1 if d.get("viol") else 0)
 
     def freeze(self):
+        self.seen = None
         n = len(self.states)
         self.out = [[] for _ in range(n)]
         self.inn = [[] for _ in range(n)]
